@@ -557,9 +557,31 @@ def verify_guard(prog, site, g):
     if "dom_call" in g:
         rx = re.compile(g["dom_call"])
         variant = g.get("variant", 0)
+        cands = []
         for f in guards.facts_at(fn, site.bb, kill=False):
             if f.op == "Eq" and f.r[0] == "const" and int(f.r[1]) == variant and f.l[0] == "discr" and _contains_call(f.l, rx):
-                return True, "site is on the success path of a dominating call to %s" % g["dom_call"]
+                if "nearest_arg_rx" not in g:
+                    return True, "site is on the success path of a dominating call to %s" % g["dom_call"]
+                for sub in sym_walk(f.l):
+                    if sub[0] == "call" and rx.search(strip_generics(sub[1])) and len(sub) > 3:
+                        cands.append(sub)
+        if cands:
+            # the *nearest* dominating successful call decides (an earlier, weaker call further up must not vouch for this site):
+            # its last argument must have the reviewed shape, e.g. `n + 1` for a read of the byte that follows an n-byte block
+            dom = fn.dominators()
+            near = max(cands, key=lambda c: len(dom.get(c[3], ())))
+            arg = sym_str(near[2][-1], 400) if near[2] else ""
+            last = near[2][-1] if near[2] else ("unknown",)
+            while last[0] in ("ref", "deref"):
+                last = last[1]
+            if g["nearest_arg_rx"] == "<param>":
+                # name-independent: the requirement passed on is a parameter of this function, unmodified
+                if last[0] == "param":
+                    return True, "site is on the success path of the nearest dominating call %s(<parameter %s>)" % (g["dom_call"], arg)
+                return False, "the nearest dominating successful call to %s is given `%s`, not the caller's own requirement unmodified" % (g["dom_call"], arg)
+            if re.search(g["nearest_arg_rx"], arg):
+                return True, "site is on the success path of the nearest dominating call %s(%s)" % (g["dom_call"], arg)
+            return False, "the nearest dominating successful call to %s has argument `%s`, which does not cover this site (reviewed shape: %s)" % (g["dom_call"], arg, g["nearest_arg_rx"])
         if g.get("plain"):
             dom = fn.dominators().get(site.bb, ())
             for bi, t in fn.calls():
